@@ -149,6 +149,7 @@ func runC05(c *Ctx) {
 	add("ALT", altL, "i", profP0i, 4)
 	add("ALT", altL, "2", profP0, 4)
 	add("ALTB", altBranchFamily(false), "", profP0, 4)
+	add("LOOP3", loop3Family(false), "", profP0, 6)
 	add("BUMP", bumpFamily(), "", profP0, 5)
 	add("LOOP", loopF, "", profP0, 4)
 	add("LOOK", lookF, "", profP0, 4)
@@ -165,6 +166,7 @@ func runC05(c *Ctx) {
 		add("SEQ k<=3", seq3, "m", profP6, 4)
 		add("ALT full", altFamily(true), "", profP0, 5)
 		add("ALTB full", altBranchFamily(true), "", profP0, 5)
+		add("LOOP3 full", loop3Family(true), "", profP0, 6)
 		add("LOOP", loopF, "", profP0, 5)
 		add("LOOP", loopF, "m", profP6, 4)
 		add("LOOK", lookF, "", profP0, 5)
